@@ -48,7 +48,7 @@ theorem C05_df_refines [DecidableEq V] (W : World V) (LL : LowerLaws W) (P : Par
     (o : Opts V) (data : List (Key × V)) (hnd : (data.map (·.1)).Nodup) :
     Refines W P o data (dataFirst {} W P o data) := by
   have wf := WF.of_wf hwf
-  obtain ⟨h1, h2⟩ := dataFirst_equiv_ref LL wf o data
+  obtain ⟨h1, h2⟩ := dataFirst_equiv_ref LL wf o data hnd
   obtain ⟨r1, r2⟩ := refRun_contract LL wf o data hnd
   refine ⟨fun k => (h1 k).trans (r1 k), fun e => ?_⟩
   rw [← r2 e, List.mem_append, List.mem_append, h2 e]
